@@ -80,13 +80,15 @@ def main():
             if only and sid not in only:
                 continue
             d = f'{VERIF}/seeded/{sid}'
-            if not (os.path.exists(pf) and os.path.exists(df)):
+            have = os.path.exists(f'{d}/patch.diff') and os.path.exists(f'{d}/demo.py')
+            if not (os.path.exists(pf) and os.path.exists(df)) and not have:
                 continue
             if os.path.exists(f'{d}/trial.json') and not only:
                 continue
             os.makedirs(d, exist_ok=True)
-            shutil.copy(pf, f'{d}/patch.diff')
-            shutil.copy(df, f'{d}/demo.py')
+            if os.path.exists(pf) and os.path.exists(df):
+                shutil.copy(pf, f'{d}/patch.diff')
+                shutil.copy(df, f'{d}/demo.py')
             nf = f'{src}/notes{suffix}.md'
             if os.path.exists(nf):
                 shutil.copy(nf, f'{d}/notes.md')
